@@ -308,10 +308,25 @@ func (x *lbExt) checkAttempts() {
 		// that was (possibly) current between the Pick and the HEADERS. Once
 		// UpdateAddresses has returned, a connection to an address that is no
 		// longer listed is not the SubConn's any more (balancer.ClientConn docs).
-		if pk.hdrConn < len(x.w.net.Pairs) && !s.listed(x.w.net.Pairs[pk.hdrConn].Addr, pk.seq, pk.hdrSeq) {
-			e.Violate("attempt_wrong_subconn", "pick %d chose sc%d (%s) but the attempt went over connection %d to %s, which was not among the SubConn's addresses between the Pick and the HEADERS", pk.id, s.id, s.addr, pk.hdrConn, x.w.net.Pairs[pk.hdrConn].Addr)
-		} else if len(s.addrHist) > 1 {
-			e.Probe("attempt_on_retargeted_subconn")
+		// grpc-go keeps such a connection when a health-checked SubConn is
+		// re-targeted while its backend is unhealthy (connected, but
+		// TRANSIENT_FAILURE or CONNECTING) and uses it again once the backend
+		// reports SERVING: a finding about UpdateAddresses, not about this
+		// property (probe; a violation only with strict_addrs, see
+		// replays-kept/C32-update-addresses-keeps-unlisted-connection.json).
+		if pk.hdrConn < len(x.w.net.Pairs) {
+			a := x.w.net.Pairs[pk.hdrConn].Addr
+			switch {
+			case !s.had(a, pk.hdrSeq) || (!s.hc && !s.listed(a, pk.seq, pk.hdrSeq)):
+				e.Violate("attempt_wrong_subconn", "pick %d chose sc%d (%s) but the attempt went over connection %d to %s, which was not among the SubConn's addresses between the Pick and the HEADERS", pk.id, s.id, s.addr, pk.hdrConn, a)
+			case !s.listed(a, pk.seq, pk.hdrSeq):
+				e.Probe("unlisted_connection_kept_after_update_addresses")
+				if x.cfg.StrictAddrs {
+					e.Violate("update_addresses_kept_unlisted_connection", "pick %d chose health-checked sc%d (%s); the attempt went over connection %d to %s, an address that UpdateAddresses had removed from the SubConn before the Pick", pk.id, s.id, s.addr, pk.hdrConn, a)
+				}
+			case len(s.addrHist) > 1:
+				e.Probe("attempt_on_retargeted_subconn")
+			}
 		}
 		if s.inst.closed && s.inst.closedSeq < x.quiesceSeq {
 			continue // the listener log of an instance closed by idle mode is incomplete
